@@ -303,6 +303,25 @@ def syntactic_obligations(pinfo):
     fails = []
     n = 0
     for ob in pinfo.get('syntactic', []):
+        if ob.get('kind') == 'table':
+            # acceptance-table obligation: every arm of the named function that matches `find` yields a tuple of its capture
+            # groups, which must be listed in `allowed` (e.g. validate's unconditional `(&Value::K(..), &Schema::S) => None`
+            # arms: K under S must be a pair the encoder arms under contract write as a datum of S)
+            path = os.path.join(vgen.REPO, ob['file'])
+            try:
+                f = rsx.find_fn(open(path).read(), ob['fn'])
+                flat = re.sub(r'\s+', ' ', rsx.strip_comments(f['body']))
+            except Exception as e:
+                fails.append(dict(fn='syntactic:' + ob['id'], src=ob['file'], src_line=0, kind='frame', msg='syntactic obligation %s: function %s not found' % (ob['id'], ob['fn']), text=str(e)))
+                continue
+            allowed = set(tuple(x) for x in ob['allowed'])
+            for m in re.finditer(ob['find'], flat):
+                n += 1
+                if tuple(m.groups()) not in allowed:
+                    fails.append(dict(fn='syntactic:' + ob['id'], src=ob['file'], src_line=f['line'], kind='frame',
+                                      msg='syntactic obligation %s failed' % ob['id'],
+                                      text='%s %s: the arm `%s` accepts the pair %s, which is not in the table of pairs the encoder writes correctly' % (ob['file'], ob['fn'], m.group(0), list(m.groups()))))
+            continue
         for path in sorted(glob.glob(os.path.join(vgen.REPO, ob['files']), recursive=True)):
             text = open(path).read()
             cut = text.find('#[cfg(test)]')
